@@ -1,6 +1,6 @@
 #!/bin/bash
 # tools/try2.sh Cxx : try round-2 seeded changes 1..3 against ./check Cxx (sequentially), summary to stdout
-pid=$1; inc=/verif/seeded/_incoming2/$pid
+pid=$1; inc=/verif/seeded/${INC:-_incoming2}/$pid
 for k in 1 2 3; do
   [ -f $inc/patch$k.diff ] || continue
   /verif/tools/try_mutant.sh $pid $inc/patch$k.diff > $inc/try$k.log 2>&1
